@@ -81,7 +81,9 @@ class Oracle:
         self.before = {}
 
     # -- AnnotateResidues ------------------------------------------------------
-    def begin_annotate_residues(self, proc, system):
+    def begin_annotate_residues(self, proc, system, sequence=None):
+        # the sequence as it was handed to the processor (a reused processor object must not have changed it)
+        self.given_sequence = list(sequence) if sequence is not None else list(proc.sequence)
         selected = []
         snap = []
         for mol in system.molecules:
@@ -94,7 +96,7 @@ class Oracle:
     def end_annotate_residues(self, proc, system, raised):
         child = self.child
         selected, snap, residues, contig = self.before.pop('AnnotateResidues')
-        seq = list(proc.sequence)
+        seq = list(self.given_sequence)
         lengths = [len(r) for r, s in zip(residues, selected) if s]
         total = sum(lengths)
         stats = child.stats
